@@ -35,3 +35,5 @@ package serviceinfo
 //@   callassert writeModuleMessages$1#2: @chunk arg0.Len == len(arg0.Modules) && arg0.Len > 0 && arg0.Start + arg0.Len + len(modules) == len(arg1)
 //@   callassert writeModuleMessages$1#1: @last arg0.Len == len(arg0.Modules) && arg0.Start + arg0.Len == len(arg1)
 //@   callassert Encode#1: @count u(unwrap(arg1)) == u(len(modules))
+//@   callsites ForceNewMessage 1
+//@   callassert ForceNewMessage#1: @beforechunks u(arg0) == u(w)
